@@ -257,10 +257,15 @@ def direct_histories(only=None):
     from mygrad.errors import InvalidBackprop
 
     out = []
-    for shared, boundary, mut, reuse, view in itertools.product(("intermediate", "leaf", "ndarray", "constant-tensor"), ("back", "clear"),
+    combos = [c + ("mul",) for c in itertools.product(("intermediate", "leaf", "ndarray", "constant-tensor"), ("back", "clear"),
             ("out-constant-true", "out-constant-false", "tracked-imul", "raw-data-write", "noautodiff-imul", "noautodiff-setitem", "none"),
-            ("no-reuse", "reuse", "failing-reuse"), ("no-view", "dropped-view")):
-        name = f"{shared}|{boundary}|{mut}|{reuse}|{view}"
+            ("no-reuse", "reuse", "failing-reuse"), ("no-view", "dropped-view"))]
+    # ... and the second graph holding the shared tensor as the *operand of an in-place update* (`z *= y`): the lock that
+    # keeps `y`'s array read-only while L2 is alive is then taken by the in-place machinery
+    combos += [c + ("inplace-operand",) for c in itertools.product(("intermediate", "leaf", "ndarray"), ("back", "clear"),
+            ("raw-data-write", "noautodiff-imul", "noautodiff-setitem", "none"), ("no-reuse", "reuse"), ("no-view",))]
+    for shared, boundary, mut, reuse, view, l2kind in combos:
+        name = f"{shared}|{boundary}|{mut}|{reuse}|{view}" + ("" if l2kind == "mul" else "|L2:" + l2kind)
         if only is not None and name != only:
             continue
         if shared == "ndarray" and (mut.startswith("out-constant") or mut == "tracked-imul" or view == "dropped-view"):
@@ -279,7 +284,12 @@ def direct_histories(only=None):
         y0 = np.array(y if isinstance(y, np.ndarray) else y.data)
         vw = y[:2] if view == "dropped-view" else None  # a view of the shared tensor, alive when L1's graph is cleared
         L1 = (y * 2.0 * x).sum()
-        L2 = (w * y).sum()
+        if l2kind == "mul":
+            L2 = (w * y).sum()
+        else:
+            z = w * 1.0
+            z *= y
+            L2 = z.sum()
         if boundary == "back":
             L1.backward()
         else:
@@ -334,7 +344,7 @@ def direct_histories(only=None):
 def direct_sig(name, cls):
     """family signature of a failing direct history: a tracked in-place update of the shared tensor followed by a re-use
     is the recorded after-clear:M,U family; a tracked in-place update of a shared *constant* tensor the const-input one"""
-    shared, boundary, mut, reuse, view = name.split("|")
+    shared, boundary, mut, reuse, view = name.split("|")[:5]
     if cls == "stale-values-used" and (mut.startswith("out-constant") or mut == "tracked-imul"):
         if shared == "constant-tensor":
             return "C09|stale-values-used:const-input|after-clear:M"
@@ -358,7 +368,7 @@ def run(ctx: Ctx) -> Outcome:
     engcheck.report(out, tres, "C09", oracle, sigfn=sigfn, per_class=10 ** 6)
     seen_d = {v.signature for v in out.violations}
     dh = direct_histories()
-    out.evaluations += 4 * 2 * 7 * 3 * 2
+    out.evaluations += 4 * 2 * 7 * 3 * 2 + 3 * 2 * 4 * 2
     out.stats["direct_histories_failing"] = len(dh)
     for name, cls, m in dh:
         sg = direct_sig(name, cls)
